@@ -165,7 +165,7 @@ C16_Checks(r) ==
            /\ ~(OutOk(r) = FALSE /\ r.out.exc = "ValueError" /\ C16_ExpectedHost(r.args.kw.host) # None)      \* build may fail for other arguments
         THEN {<<"C16.build_host", TRUE, C16_HostArg(r.args.kw.host, r.out)>>} ELSE {})
   \cup (IF r.act = "ctor" THEN {<<"C16.nfkc", HasAny(r.args.s, NfkcDelims), C16_Nfkc(r.args.s, NfkcDelims, r.out)>>} ELSE {})
-  \cup (IF r.act = "ctor" /\ ~r.args.encoded THEN {<<"C16.ctor_ipv6", TRUE, C16_CtorHost(r.args.s, r.out)>>} ELSE {})
+  \cup (IF r.act = "ctor" /\ ~r.args.encoded THEN {<<"C16.ctor_ipv6", TRUE, C16_CtorHost(r.args.s, NfkcDelims, r.out)>>} ELSE {})
   \cup (IF r.act = "with_host_self" /\ Has_(r, "self") /\ ~(OutOk(r) = FALSE /\ r.out.exc = "n/a")
         THEN {<<"C16.selfhost." \o r.args.which, TRUE, C16_SelfHost(r.self, r.out)>>}
              \cup (IF r.args.which = "raw_host" THEN {<<"C16.selfhost_rejected", TRUE, C16_SelfHostRejected(r.self, r.out)>>} ELSE {})
